@@ -59,6 +59,11 @@ rand    `-` or `<seed>:<d,d,…>` raw Int63 draws of math/rand after Seed(seed)
   sc <tls 0|1> <trusted proxy 0|1> <X-Forwarded-Proto values hex,…|-> <max_age ns>
         the attributes of the sticky cookie a cookie policy writes. answer `secure=<0|1> ss=<none|-> ma=<seconds>`
 
+  ah <passes> <fails> <script>
+        active health checks of one upstream: the configured thresholds (0 = not configured) and the results of the
+        consecutive checks, `p` pass / `f` fail (the first is the check `Provision` starts right away).
+        answer after every check `h<healthy 0|1>:<passes counted>:<fails counted>`, joined by `,`
+
 answer  `<r>,<r>,… c=<counter|-> a=<availability bits|->`, r = `nil` | `<i>` | `<i>+ck<id>` | `panic:idx` | `panic:nil`;
         `err:provision` if the policy is rejected; `starved` if the draws run out; `bad-op` if malformed.
 -/
@@ -392,7 +397,16 @@ def showRp : Lr RpCfg → String
       ++ " r=" ++ toString c.retries ++ " td=" ++ toString c.tryDur ++ " ti=" ++ toString c.tryInt
       ++ " p=" ++ (if c.passive then toString c.maxFails ++ "," ++ toString c.failDur ++ "," ++ toString c.urc else "-")
 
+def showAh (s : AhState) : String :=
+  "h" ++ (if s.healthy then "1" else "0") ++ ":" ++ toString s.passes ++ ":" ++ toString s.fails
+
 def handle : List String → String
+  | ["ah", p, f, script] =>
+    match num 20 p, num 20 f, (script.toList.mapM fun c => if c = 'p' then some true else if c = 'f' then some false else none) with
+    | some p, some f, some rs =>
+      if rs.isEmpty || 24 < rs.length then "bad-op"
+      else ",".intercalate ((ahRun (ahThreshold p) (ahThreshold f) ahInit rs).map showAh)
+    | _, _, _ => "bad-op"
   | ["sc", tls, trusted, xfp, ma] =>
     match optBool tls, optBool trusted, (if xfp == "-" then some [] else (xfp.splitOn ",").mapM Hex.decode), sint max63 ma with
     | some (some tls), some (some tr), some xfp, some ma =>
